@@ -7,8 +7,14 @@
          UnscheduledOperationsObserver, [[1; hm; hj]] RemainingOperationsObserver,
          [[2; ho; hm; hj]] IsCompletedObserver with those feature types), then
          ResidualGraphUpdater(remove_completed_machine_nodes = rm_m,
-         remove_completed_job_nodes = rm_j); then the events ([[0; j; p; m]]
-         dispatch, [[1]] dispatcher.reset()).
+         remove_completed_job_nodes = rm_j); then the events: [[0; j; p; m]]
+         a dispatch request with the updater subscribed, [[2; j; p; m]] a
+         dispatch request while the updater ITSELF is not subscribed
+         (constructed with subscribe=False and not yet handed to
+         dispatcher.subscribe: its helper observers are notified, its own
+         update() is not), every other code ([[1]] is what the harness sends)
+         dispatcher.reset(). Codes 0 and 2 answer [accepted; state], reset
+         answers [2; state].
          -> [[0]] (the builder raised) or [[1; state; [[accepted; state] ...]]],
          state = [removed_nodes; edges sorted; is-completed observer of the
          updater: [] or [[flags_m; flags_j; remaining_m; remaining_j]]].
@@ -49,6 +55,11 @@ Definition run_event17 (I : instance) (dflt : rgu) (acc : world rgu * list val) 
   | 0%nat =>
       let r := mkreq (asN (vnth ev 1)) (asN (vnth ev 2)) (Some (asZ (vnth ev 3))) in
       let res := dispatch rgu_update I r w in
+      let ok := match snd res with inl _ => true | inr _ => false end in
+      (fst res, snd acc ++ [VL [vbool ok; enc_state (the_rgu (fst res) dflt)]])
+  | 2%nat =>
+      let r := mkreq (asN (vnth ev 1)) (asN (vnth ev 2)) (Some (asZ (vnth ev 3))) in
+      let res := dispatch rgu_update_detached I r w in
       let ok := match snd res with inl _ => true | inr _ => false end in
       (fst res, snd acc ++ [VL [vbool ok; enc_state (the_rgu (fst res) dflt)]])
   | _ =>
